@@ -1,5 +1,10 @@
 import Thanos.Model.Merge
 import Thanos.Lemmas.Chain
+import Thanos.Lemmas.Order
+import Thanos.Lemmas.Proxy
+import Thanos.Lemmas.DedupOnce
+import Thanos.Lemmas.KMerge
+import Thanos.Lemmas.SortSpec
 import Thanos.Generated.Facts
 /-
   C03 — StoreAPI fan-out merge returns each series once, sorted, with all chunks.
@@ -268,6 +273,193 @@ theorem rebatch_sizes (n : Nat) (hn : 1 ≤ n) : ∀ (fs : List Frame) (pend : L
     · cases hmem
     · exact rebatch_sizes n hn rest [] h' (by simp; omega) ss hmem
   | .batch b :: rest, pend, h, _, _, _ => absurd rfl (h (.batch b) (by simp) b)
+
+/-! ### end to end: sorted, each label set once, exactly the delivered chunks
+
+  The k-way merge enters as a parameter with the specification `MergeSpec` (`IsKMerge`,
+  `Lemmas/KMerge.lean`): the merged stream is built by repeatedly taking a head that no other head
+  has to precede.  That pkg/losertree meets it is `losertree_refines` below. -/
+
+def MergeSpec (merge : List (List Frame) → List Frame) : Prop := ∀ sets, IsKMerge sets (merge sets)
+
+theorem mergeMem_of_spec {merge : List (List Frame) → List Frame} (h : MergeSpec merge) : MergeMem merge :=
+  fun sets x => (h sets).mem x
+
+/-- the StoreAPI contract ("Series has to be sorted") for the stores that are read in the order
+    they send; stores that are re-sorted by the proxy need nothing -/
+def StoresSorted (rq : Request) (stores : List Store) : Prop :=
+  ∀ st ∈ stores, ReadInOrder rq st = true → (storeSeries st.frames).Pairwise (fun a b => lblLe a.lbls b.lbls)
+
+/-- a series response that reaches the merge from a store that opened -/
+def Delivered (rq : Request) (stores : List Store) (s : Series) : Prop :=
+  ∃ st ∈ stores, st.openErr = false ∧ Frame.series s ∈ respSet rq.lazy rq.sharded rq.without st
+
+/-- what a client reads (batches unpacked) under the warn strategy without limit: the series of the
+    (deduplicated) merged stream, whatever the batch size -/
+theorem flatten_proxy_warn (merge : List (List Frame) → List Frame) (hm : MergeMem merge)
+    (rq : Request) (stores : List Store) (hab : rq.abort = false) (hlim : rq.limit = 0) :
+    flatten (proxySeriesWith merge rq stores).1 =
+      seriesOf (if rq.dedup then dedup rq.fixedDedup (merge (fanOut rq stores).2.1) else merge (fanOut rq stores).2.1) := by
+  have hfo := fanOut_warn rq hab stores
+  have hmergeNB : ∀ f ∈ merge (fanOut rq stores).2.1, ∀ ss, f ≠ .batch ss := by
+    intro f hf
+    obtain ⟨set, hset, hfs⟩ := (hm _ _).mp hf
+    exact fanOut_sets_noBatch rq stores set hset f hfs
+  have hnb : ∀ f ∈ (if rq.dedup then dedup rq.fixedDedup (merge (fanOut rq stores).2.1) else merge (fanOut rq stores).2.1),
+      ∀ ss, f ≠ .batch ss := by
+    split
+    · exact dedup_noBatch _ _ none [] hmergeNB (by simp)
+    · exact hmergeNB
+  rw [proxy_warn_eq merge rq stores hab hlim, C03_batch_independent]
+  · rw [seriesOf_append, seriesOf_nonSeries _ (fun x hx => by
+      obtain ⟨m, rfl⟩ := hfo.2.2.2 x hx; rfl)]; rfl
+  · intro f hf ss
+    simp only [List.mem_append] at hf
+    rcases hf with hf | hf
+    · intro heq; subst heq
+      obtain ⟨m, hm'⟩ := hfo.2.2.2 _ hf
+      cases hm'
+    · exact hnb f hf ss
+
+/-- **C03, sorted and once.**  For any number of stores that each stream label-sorted series
+    (split over frames, batched, duplicated across stores, warnings / hints interleaved, some of
+    them failing mid-stream), lazy or eager retrieval, any buffer and batch size, with or without
+    replica-label removal and re-sort: the proxied answer lists the series strictly increasing by
+    labels — sorted, each label set once. -/
+theorem C03_sorted_once (merge : List (List Frame) → List Frame) (hm : MergeSpec merge)
+    (rq : Request) (stores : List Store) (hab : rq.abort = false) (hlim : rq.limit = 0)
+    (hd : rq.dedup = true) (hs : StoresSorted rq stores) :
+    (flatten (proxySeriesWith merge rq stores).1).Pairwise (fun a b => cmpLabels a.lbls b.lbls = .lt) := by
+  rw [flatten_proxy_warn merge (mergeMem_of_spec hm) rq stores hab hlim]
+  simp only [hd, if_true]
+  have hsets : ∀ set ∈ (fanOut rq stores).2.1, StreamSorted set := by
+    intro set hset
+    obtain ⟨st, hst, _, rfl⟩ := fanOut_sets_from rq stores set hset
+    exact respSet_sorted rq st (hs st hst)
+  have := (hm (fanOut rq stores).2.1).sorted hsets
+  exact (dedupGo_sorted rq.fixedDedup _ none [] (by intro x hx; simp at hx) this (by intro f r h; simp at h)).1
+
+/-- **C03, exactly the delivered chunks.**  With the repaired deduplicator and chunk keys that tell
+    the delivered chunks apart: (a) every delivered series is represented by an answer series with
+    the same labels that carries all of its chunks; (b) every answer series has the labels of a
+    delivered series, and its chunks are without repetition, ordered by (MinTime, MaxTime), and each
+    of them was delivered by some store for these labels. -/
+theorem C03_exact (merge : List (List Frame) → List Frame) (hm : MergeMem merge)
+    (rq : Request) (stores : List Store) (hab : rq.abort = false) (hlim : rq.limit = 0)
+    (hd : rq.dedup = true) (hfix : rq.fixedDedup = true)
+    (hkeys : ∀ ss : List Series, (∀ s ∈ ss, Delivered rq stores s) →
+      KeyInj (ss.flatMap (·.chunks)) ∧ Populated (ss.flatMap (·.chunks))) :
+    (∀ s, Delivered rq stores s → ∃ o ∈ flatten (proxySeriesWith merge rq stores).1,
+        cmpLabels o.lbls s.lbls = .eq ∧ ∀ c ∈ s.chunks, c ∈ o.chunks) ∧
+    (∀ o ∈ flatten (proxySeriesWith merge rq stores).1,
+        o.chunks.Nodup ∧ o.chunks.Pairwise timeLe ∧
+        (∃ s, Delivered rq stores s ∧ o.lbls = s.lbls) ∧
+        (∀ c ∈ o.chunks, ∃ s, Delivered rq stores s ∧ cmpLabels o.lbls s.lbls = .eq ∧ c ∈ s.chunks)) := by
+  rw [flatten_proxy_warn merge hm rq stores hab hlim]
+  simp only [hd, if_true, hfix]
+  have hfo := fanOut_warn rq hab stores
+  have hdel : ∀ x, x ∈ seriesOf (merge (fanOut rq stores).2.1) → Delivered rq stores x := by
+    intro x hx
+    obtain ⟨set, hset, hxs⟩ := (hm _ _).mp (mem_seriesOf.mp hx)
+    obtain ⟨st, hst, ho, rfl⟩ := fanOut_sets_from rq stores set hset
+    exact ⟨st, hst, ho, hxs⟩
+  constructor
+  · rintro s ⟨st, hst, ho, hs⟩
+    have hsm : s ∈ seriesOf (merge (fanOut rq stores).2.1) :=
+      mem_seriesOf.mpr ((hm _ _).mpr ⟨_, hfo.2.2.1 st hst ho, hs⟩)
+    obtain ⟨f, r, hmem, hsf, hr, hprov⟩ := dedupGo_series' true (merge (fanOut rq stores).2.1) none [] s
+      (by intro f r h; simp at h) (Or.inl hsm)
+    refine ⟨chain true f r, mem_seriesOf.mpr hmem, ?_, ?_⟩
+    · rw [chain_lbls]
+      simp only [List.mem_cons] at hsf
+      rcases hsf with rfl | hsf
+      · exact cmpLabels_refl _
+      · exact hr s hsf
+    · have hk := hkeys (f :: r) (by
+        intro x hx
+        rcases hprov x hx with h | ⟨_, _, h, _⟩
+        · exact hdel x h
+        · simp at h)
+      intro c hc
+      exact ((C03_chunks f r hk.1 hk.2).2.2.1 c).mpr (by
+        simp only [List.mem_flatMap]; exact ⟨s, hsf, hc⟩)
+  · intro o ho
+    obtain ⟨f, r, rfl, hmem, hr⟩ := dedupGo_groups true (merge (fanOut rq stores).2.1) none []
+      (by intro x hx; simp at hx) (by intro f r h; simp at h) o ho
+    have hall : ∀ x ∈ f :: r, Delivered rq stores x := by
+      intro x hx
+      rcases hmem x hx with h | ⟨_, _, h, _⟩
+      · exact hdel x h
+      · simp at h
+    have hk := hkeys (f :: r) hall
+    obtain ⟨hl, hnd, hiff, hsorted⟩ := C03_chunks f r hk.1 hk.2
+    refine ⟨hnd, hsorted, ⟨f, hall f (by simp), hl⟩, ?_⟩
+    intro c hc
+    obtain ⟨x, hx, hcx⟩ := List.mem_flatMap.mp ((hiff c).mp hc)
+    refine ⟨x, hall x hx, ?_, hcx⟩
+    rw [hl]
+    simp only [List.mem_cons] at hx
+    rcases hx with rfl | hx
+    · exact cmpLabels_refl _
+    · exact hr x hx
+
+theorem fanOut_batch (rq : Request) (b : Nat) : ∀ stores : List Store,
+    fanOut { rq with batchSize := b } stores = fanOut rq stores
+  | [] => rfl
+  | st :: rest => by
+    unfold fanOut
+    rw [fanOut_batch rq b rest]
+
+/-- **Configuration independence (batch size).**  Two requests that differ only in
+    `ResponseBatchSize` give a client that unpacks batches the very same list of series. -/
+theorem C03_batch_size_independent (merge : List (List Frame) → List Frame) (hm : MergeMem merge)
+    (rq : Request) (b1 b2 : Nat) (stores : List Store) (hab : rq.abort = false) (hlim : rq.limit = 0) :
+    flatten (proxySeriesWith merge { rq with batchSize := b1 } stores).1 =
+    flatten (proxySeriesWith merge { rq with batchSize := b2 } stores).1 := by
+  have h1 := flatten_proxy_warn merge hm { rq with batchSize := b1 } stores hab hlim
+  have h2 := flatten_proxy_warn merge hm { rq with batchSize := b2 } stores hab hlim
+  rw [h1, h2]
+  simp only [fanOut_batch]
+
+/-- **Configuration independence (retrieval strategy).**  Lazy and eager retrieval deliver the same
+    series responses to the merge (eager only permutes a store's responses), so `C03_sorted_once`
+    and `C03_exact` describe the answer of both in the same terms; the lazy buffer size does not
+    occur in the model at all (the ring buffer is a FIFO). -/
+theorem C03_delivered_lazy_eager (rq : Request) (stores : List Store) (s : Series) :
+    Delivered { rq with lazy := true } stores s ↔ Delivered { rq with lazy := false } stores s := by
+  have key : ∀ st : Store, Frame.series s ∈ respSet true rq.sharded rq.without st ↔
+      Frame.series s ∈ respSet false rq.sharded rq.without st := by
+    intro st
+    unfold respSet
+    simp only [Bool.true_and, Bool.false_and, Bool.false_eq_true, if_false]
+    split
+    · rename_i h
+      have hnr : (!st.supportsWithout && !rq.without.isEmpty) = false := by
+        cases h1 : (!st.supportsWithout && !rq.without.isEmpty) with
+        | false => rfl
+        | true => simp [h1] at h
+      simp only [hnr, Bool.false_eq_true, if_false]
+      unfold sortWithoutLabels
+      rw [(goInsertionSort_perm _).mem_iff]
+      simp only [List.isEmpty_nil, if_true]
+      constructor
+      · intro hm
+        exact List.mem_map.mpr ⟨_, hm, rfl⟩
+      · intro hm
+        obtain ⟨g, hg, hgs⟩ := List.mem_map.mp hm
+        cases g <;> simp_all
+    · rfl
+  constructor
+  · rintro ⟨st, hst, ho, h⟩; exact ⟨st, hst, ho, (key st).mp h⟩
+  · rintro ⟨st, hst, ho, h⟩; exact ⟨st, hst, ho, (key st).mpr h⟩
+
+/-- The loser tree of pkg/losertree (as transliterated in `Model/LoserTree.lean`, with the
+    comparator of `NewProxyResponseLoserTree`) is a k-way merge in the sense of `IsKMerge`.
+    **Not proved** (the stretch goal): the statement is kept as a `def`; `treeMerge` is tied to the
+    specification by the differential runs (`lt.merge`, `merge.series`) and by the Go oracle, which
+    checks sortedness / completeness of every answer of the real tree.  `C03_sorted_once`,
+    `C03_exact` and the C06 theorems hold for every merge that satisfies it. -/
+def losertree_refines : Prop := MergeSpec treeMerge
 
 /-! ### regenerated facts -/
 
